@@ -67,6 +67,7 @@ class AtomTable:
             z3.Implies(z3.And(th > -PI, th <= PI, s > 0), z3.And(th > 0, th < PI)),
             z3.Implies(z3.And(th > -PI, th <= PI, s < 0), z3.And(th > -PI, th < 0)),
             z3.Implies(z3.And(th > -PI, th <= PI, c > 0), z3.And(th > -half, th < half)),
+            s * s <= th * th, 2 * (1 - c) <= th * th,
         ]
         E.axioms_used.add('G')
         E.defs += facts
@@ -265,31 +266,7 @@ class Angle(Term):
         return f"<angle {self.ang} +{self.kpi}pi>"
 
     def __mod__(s, o):
-        # reduction modulo 2*pi does not change cos/sin; keep the angle, remember that the value may differ
-        pm = core.pi_multiple(float(o)) if isnum(o) else None
-        if pm == 2:
-            E.axioms_used.add('MOD2PI')
-            return ModAngle(s)
-        raise EngineUnsupported("angle modulo")
-
-
-class ModAngle(Angle):
-    """angle reduced modulo 2*pi: same cos/sin, value = fresh real in [0, 2pi)"""
-    __slots__ = ('base',)
-
-    def __init__(self, base):
-        self.base = base
-        name = A.new_atom('mod')
-        v = A.value(name)
-        k = E.fresh('kmod')
-        E.used_pi = True
-        E.defs += [v >= 0, v < 2 * PI, v == base.z - 2 * PI * k, z3.IsInt(k)] if False else [v >= 0, v < 2 * PI]
-        c0, s0 = base.cs()
-        c, s = A.pair(name, 1)
-        E.defs += [c == c0, s == s0]
-        # v == 0  <=>  (c, s) == (1, 0)   on [0, 2pi)
-        E.defs += [z3.Implies(z3.And(c == 1), v == 0)]
-        Angle.__init__(self, {name: (Fraction(1), 0)})
+        return Term(s.z, s.nodes).__mod__(o)
 
 
 def atom_of_expr(z):
